@@ -199,6 +199,28 @@ pub fn parse_args(args: &[String]) -> Args {
     a
 }
 
+/// names the scenario that is about to run in <out>/current_case.txt: if the process dies (abort,
+/// a panic on a thread nobody catches), ./check reports the death with this scenario as the input
+pub fn mark_scenario(out: &Out, line: &str) {
+    use std::io::{Seek, SeekFrom, Write};
+    static MARK: std::sync::Mutex<Option<std::fs::File>> = std::sync::Mutex::new(None);
+    let mut m = MARK.lock().unwrap();
+    if m.is_none() {
+        *m = std::fs::File::create(out.dir.join("current_case.txt")).ok();
+    }
+    if let Some(f) = m.as_mut() {
+        let _ = f.seek(SeekFrom::Start(0));
+        let _ = f.write_all(line.as_bytes());
+        let _ = f.write_all(b"\n#END#                                                                                                              \n");
+    }
+}
+
+thread_local! { pub static EXPECT_PANIC: std::cell::Cell<u32> = std::cell::Cell::new(0); }
+
+/// runs `f`, catching a panic of the code under test (None); such panics are not echoed on stderr
 pub fn panics<R>(f: impl FnOnce() -> R) -> Option<R> {
-    std::panic::catch_unwind(std::panic::AssertUnwindSafe(f)).ok()
+    EXPECT_PANIC.with(|c| c.set(c.get() + 1));
+    let r = std::panic::catch_unwind(std::panic::AssertUnwindSafe(f)).ok();
+    EXPECT_PANIC.with(|c| c.set(c.get() - 1));
+    r
 }
